@@ -1,6 +1,6 @@
 (* Property C07 (TLS over TCP) -- statements only. *)
 From Coq Require Import ZArith List Bool.
-Require Import PyLib Packet Reassembly TlsSession OutputBuilder Frames Main BuilderP C07P.
+Require Import TimeConv TimeP PyLib Packet Reassembly TlsSession OutputBuilder Frames Main BuilderP C07P.
 Import ListNotations.
 Open Scope Z_scope.
 
@@ -32,3 +32,14 @@ Theorem C07_roles : forall p ports, let s := new_session p ports in
   ts_ipv6 s = p_v6 p.
 Proof. exact session_roles. Qed.
 Print Assumptions C07_roles.
+
+(* "Time stamps are preserved to microsecond resolution": a capture time of m microseconds (0 <= m < 2^51, i.e. before the year 2041), read
+   from a microsecond-resolution pcapng as the float m / 10^6 and written back as intround(ts * 1e6), is m again: the two roundings of the
+   binary64 arithmetic never add up to half a microsecond.  (Assumes the standard library's real numbers and classical logic, through
+   Flocq -- see DESIGN.md I.5.)  Other resolutions: C12_time_any_resolution. *)
+Theorem C07_microseconds : forall m, 0 <= m < 2 ^ 51 -> time_us m 1000000 0 = Some m.
+Proof.
+  intros m [H0 H1]. destruct (Z.eq_dec m 0) as [->|N]; [exact (time_us_zero 1000000 eq_refl)|].
+  apply time_us_whole; [| reflexivity | ring | exact H1]. apply Z.le_neq. split; [exact H0|]. intros E. apply N. symmetry. exact E.
+Qed.
+Print Assumptions C07_microseconds.
